@@ -132,6 +132,10 @@ func (o Options) fromBytesCheckEnd(data []byte, checkEndOption bool) error {
 			break
 		}
 		length := int(buf.Read8())
+		if err := buf.Error(); err != nil {
+			// The option code was the last byte: the length byte is missing.
+			return fmt.Errorf("error collecting options: %v", err)
+		}
 
 		// N bytes: option data
 		data := buf.Consume(length)
